@@ -1620,7 +1620,7 @@ func (sc *serverConn) processFrame(f Frame) error {
 						Val: s.Val,
 					})
 				}
-				md.HTTP2Frames.Settings = settings
+				md.HTTP2Frames.SetSettings(settings)
 			}
 		}
 		return sc.processSettings(f)
@@ -1630,23 +1630,21 @@ func (sc *serverConn) processFrame(f Frame) error {
 			for _, h := range f.Fields {
 				headers = append(headers, metadata.HeaderField(h))
 			}
-			md.HTTP2Frames.Headers = headers
+			var priority *metadata.Priority
 			if f.HasPriority() {
-				md.HTTP2Frames.Priorities = append(md.HTTP2Frames.Priorities,
-					metadata.Priority{
-						StreamId:  f.StreamID,
-						StreamDep: f.Priority.StreamDep,
-						Exclusive: f.Priority.Exclusive,
-						Weight:    f.Priority.Weight,
-					})
+				priority = &metadata.Priority{
+					StreamId:  f.StreamID,
+					StreamDep: f.Priority.StreamDep,
+					Exclusive: f.Priority.Exclusive,
+					Weight:    f.Priority.Weight,
+				}
 			}
+			md.HTTP2Frames.SetHeaders(headers, priority)
 		}
 		return sc.processHeaders(f)
 	case *WindowUpdateFrame:
 		if md, ok := metadata.FromContext(sc.baseCtx); ok {
-			if md.HTTP2Frames.WindowUpdateIncrement == 0 {
-				md.HTTP2Frames.WindowUpdateIncrement = f.Increment
-			}
+			md.HTTP2Frames.SetWindowUpdateIncrementOnce(f.Increment)
 		}
 		return sc.processWindowUpdate(f)
 	case *PingFrame:
@@ -1657,7 +1655,7 @@ func (sc *serverConn) processFrame(f Frame) error {
 		return sc.processResetStream(f)
 	case *PriorityFrame:
 		if md, ok := metadata.FromContext(sc.baseCtx); ok {
-			md.HTTP2Frames.Priorities = append(md.HTTP2Frames.Priorities, metadata.Priority{
+			md.HTTP2Frames.AddPriority(metadata.Priority{
 				StreamId:  f.StreamID,
 				StreamDep: f.PriorityParam.StreamDep,
 				Exclusive: f.PriorityParam.Exclusive,
